@@ -381,6 +381,31 @@ def _occurrence(interp, t, u, reverse, base):
 
 
 def _find(interp, s, sub, start, reverse, raise_on_missing):
+    """find / rfind / index / rindex.  The result for the same (string, pattern, start) terms is computed once
+    per path (the pieces of the first evaluation are re-used), so that code and clauses that search for the
+    same thing talk about the same pieces."""
+    st = interp.st
+    t = _s(s)
+    u = _s(sub)
+    cache = st.ghost.setdefault('__finds__', {})
+    key = (t.get_id(), u.sexpr(), None if start is None else z3.simplify(_s(start)).sexpr(), bool(reverse))
+    ent = cache.get(key)
+    if ent is not None and _visible(interp, ent[1]):
+        r = ent[0]
+        if isinstance(r, int) and r == -1 and raise_on_missing:
+            raise _pyraise(ValueError('substring not found'))
+        return r
+    try:
+        r = _find_uncached(interp, s, sub, start, reverse, False)
+    except BaseException:
+        raise
+    cache[key] = (r, _dec(interp, []), t)
+    if isinstance(r, int) and r == -1 and raise_on_missing:
+        raise _pyraise(ValueError('substring not found'))
+    return r
+
+
+def _find_uncached(interp, s, sub, start, reverse, raise_on_missing):
     st = interp.st
     t = _s(s)
     u = _s(sub)
@@ -431,7 +456,8 @@ def _strip(interp, s, chars, left, right):
     st = interp.st
     t = _s(s)
     if chars is None:
-        raise Unsupported('strip() of Unicode white space (bounded stand-in only)')
+        from . import charclass
+        return charclass.strip_space(interp, s, left, right)
     if isinstance(chars, Sym) or not chars:
         raise Unsupported('strip with symbolic character set')
     kind = ('l' if left else '') + ('r' if right else '')
@@ -474,6 +500,10 @@ def _upred(interp, name, s):
         st.assume(z3.And(*[g(i) if getattr(chr(i), name)() else z3.Not(g(i)) for i in range(128)]))
     if t.get_id() in st.ghost.get('__len1__', {}):
         return wrap(g(z3.StrToCode(t)))
+    from . import charclass
+    if name in charclass.ALL_CHARS_PREDICATES:
+        # "there is at least one character and all characters are <name>"
+        return charclass.upred_of_string(interp, name, s)
     return wrap(z3.If(z3.Length(t) == 1, g(z3.StrToCode(t)), f(t)))
 
 
@@ -748,6 +778,12 @@ def forget_dead_pieces(interp):
             res, t = sl[key][0], sl[key][1]
             if dead_term(t) or (isinstance(res, Sym) and dead_term(_s(res))):
                 del sl[key]
+    fc = st.ghost.get('__finds__')
+    if fc:
+        for key in list(fc):
+            r, _d, t = fc[key]
+            if dead_term(t) or (isinstance(r, Sym) and dead_term(_s(r))):
+                del fc[key]
     cc = st.ghost.get('__concats__')
     if cc:
         cc[:] = [(w, ps, sc) for (w, ps, sc) in cc if not dead_term(w) and not any(dead_term(p) for p in ps)]
